@@ -1200,7 +1200,7 @@ func main() {
 		z := (a.Seed + 0x632BE59BD9B4E019) * 0xFF51AFD7ED558CCD
 		z ^= z >> 33
 		g := &gen{d: d, rng: hx.NewRng(z)}
-		for run.NOps < a.N {
+		for run.NOps < a.N && !run.Enough() {
 			g.episode()
 		}
 	}
